@@ -211,7 +211,10 @@ Definition tmpl := list piece.
 Inductive tok := TField (f : str) | TIdent (s : str) | TStr (s : str) | TPipe.
 Inductive raw := RText (s : str) | RAction (toks : list tok).
 
-Inductive sres := SOk (l : list raw) | SErr | SUnsup.
+(* how the scan ended; the pieces completed before an error are kept, because
+   text/template reports the first problem in reading order *)
+Inductive sstat := Fin | FErr | FUnsup.
+Definition sres := (list raw * sstat)%type.
 
 Inductive lstate :=
 | SText (acc : str)
@@ -226,7 +229,7 @@ Fixpoint scan (st : lstate) (out : list raw) (s : str) : sres :=
   match st with
   | SText acc =>
     match s with
-    | [] => SOk (rev (RText (rev acc) :: out))
+    | [] => (rev (RText (rev acc) :: out), Fin)
     | x :: r =>
       if beqb x c_lbrace then
         match r with
@@ -238,65 +241,66 @@ Fixpoint scan (st : lstate) (out : list raw) (s : str) : sres :=
     end
   | SAct toks sep =>
     match s with
-    | [] => SErr                                         (* unclosed action *)
+    | [] => (rev out, FErr)                                         (* unclosed action *)
     | x :: r =>
       if beqb x c_rbrace then
         match r with
-        | y :: r' => if beqb y c_rbrace then scan (SText []) (RAction (rev toks) :: out) r' else SErr
-        | [] => SErr                                     (* a single "}" is never accepted *)
+        | y :: r' => if beqb y c_rbrace then scan (SText []) (RAction (rev toks) :: out) r' else (rev out, FErr)
+        | [] => (rev out, FErr)                                     (* a single "}" is never accepted *)
         end
       else if is_space x then scan (SAct toks true) out r
       else if beqb x c_pipe then scan (SAct (TPipe :: toks) true) out r
-      else if negb sep then SUnsup
+      else if beqb x c_lbrace then (rev out, FErr)     (* "{" outside a string is never accepted *)
+      else if negb sep then (rev out, FUnsup)
       else if beqb x c_dot then scan (SField toks []) out r
       else if beqb x c_quote then scan (SStr toks []) out r
       else if is_alpha x then scan (SIdent toks [x]) out r
-      else SUnsup
+      else (rev out, FUnsup)
     end
   | SField toks acc =>
     match s with
-    | [] => SErr
+    | [] => (rev out, FErr)
     | x :: r =>
       if (match acc with [] => is_alpha x | _ => is_alnum x end) then scan (SField toks (x :: acc)) out r
       else match acc with
-      | [] => SUnsup                                     (* "." alone, ".5" *)
+      | [] => (rev out, FUnsup)                                     (* "." alone, ".5" *)
       | _ =>
         let t := TField (rev acc) in
         if beqb x c_rbrace then
           match r with
-          | y :: r' => if beqb y c_rbrace then scan (SText []) (RAction (rev (t :: toks)) :: out) r' else SErr
-          | [] => SErr
+          | y :: r' => if beqb y c_rbrace then scan (SText []) (RAction (rev (t :: toks)) :: out) r' else (rev out, FErr)
+          | [] => (rev out, FErr)
           end
         else if is_space x then scan (SAct (t :: toks) true) out r
         else if beqb x c_pipe then scan (SAct (TPipe :: t :: toks) true) out r
-        else SUnsup
+        else (rev out, FUnsup)
       end
     end
   | SIdent toks acc =>
     match s with
-    | [] => SErr
+    | [] => (rev out, FErr)
     | x :: r =>
       if is_alnum x then scan (SIdent toks (x :: acc)) out r
       else
         let t := TIdent (rev acc) in
         if beqb x c_rbrace then
           match r with
-          | y :: r' => if beqb y c_rbrace then scan (SText []) (RAction (rev (t :: toks)) :: out) r' else SErr
-          | [] => SErr
+          | y :: r' => if beqb y c_rbrace then scan (SText []) (RAction (rev (t :: toks)) :: out) r' else (rev out, FErr)
+          | [] => (rev out, FErr)
           end
         else if is_space x then scan (SAct (t :: toks) true) out r
         else if beqb x c_pipe then scan (SAct (TPipe :: t :: toks) true) out r
-        else SUnsup
+        else (rev out, FUnsup)
     end
   | SStr toks acc =>
     match s with
-    | [] => SErr                                         (* unterminated quoted string *)
+    | [] => (rev out, FErr)                                         (* unterminated quoted string *)
     | x :: r =>
       if beqb x c_quote then scan (SAct (TStr (rev acc) :: toks) false) out r
-      else if beqb x c_nl then SErr
-      else if beqb x c_bslash then SUnsup
+      else if beqb x c_nl then (rev out, FErr)
+      else if beqb x c_bslash then (rev out, FUnsup)
       else if is_print x then scan (SStr toks (x :: acc)) out r
-      else SUnsup
+      else (rev out, FUnsup)
     end
   end.
 
@@ -385,10 +389,10 @@ Fixpoint parse_pieces (l : list raw) : pres tmpl :=
               end
   end.
 Definition parse (s : str) : pres tmpl :=
-  match scan (SText []) [] s with
-  | SOk l => parse_pieces l
-  | SErr => PErr
-  | SUnsup => PUnsup
+  let '(l, st) := scan (SText []) [] s in
+  match parse_pieces l with
+  | POk t => match st with Fin => POk t | FErr => PErr | FUnsup => PUnsup end
+  | e => e
   end.
 
 (* printer (concrete syntax of a template of the subset) *)
